@@ -437,9 +437,9 @@ func propC09(c *Ctx) int {
 
 func propC06(c *Ctx) int {
 	thorough := c.Tier == "thorough"
-	docs := []int64{0, 1, 2, 3, 4, 5, 7}
+	docs := []int64{0, 1, 2, 3, 4, 5, 6, 7, 8, 9, 10, 12}
 	if thorough {
-		docs = []int64{0, 1, 2, 3, 4, 5, 6, 7, 8, 9}
+		docs = []int64{0, 1, 2, 3, 4, 5, 6, 7, 8, 9, 10, 11, 12, 13, 14}
 	}
 	totalSites := 0
 	for _, doc := range docs {
@@ -456,7 +456,7 @@ func propC06(c *Ctx) int {
 	static := StaticNondeterminismScan(c)
 	return c.Finish("model_checking", []string{
 		"dynamic part: each project is built with insertion-ordered maps and built again with ONE range-over-map site (sites numbered in execution order, in the repository and in jsight-schema-core alike) iterating in a symbolic order — a full symbolic permutation (Lehmer code) for maps of <= 4 entries, a symbolic rotation + optional reversal above; every execution of that site uses the same symbolic order; the solver looks for an order that changes accept/reject, message, file, index, include trace or the catalog digest",
-		fmt.Sprintf("projects: 5 determinism fixtures (several enums/types/path variables/allOf; two independent faults; three recursive macros; property overrides; path parameters defined on several levels) + layout skeletons; %d (project, site) pairs this run", totalSites),
+		fmt.Sprintf("projects: 10 determinism fixtures (a Tags directive repeating one of three tags; a path repeating two different parameters; two servers/tags/enums/OperationIds; several enums/types/path variables/allOf; two independent faults; three recursive macros; property overrides; path parameters defined on several levels; a Path schema with two unused properties; two types using undefined types) + layout skeletons; %d (project, site) pairs this run", totalSites),
 		"interactions between the orders of two different sites, cross-process effects other than map order, and everything below json.Marshal are outside the claim; a counterexample is confirmed natively by rebuilding the project 200 times (Go randomises map iteration)",
 		"static part (evidence.coverage.static_scan): every range-over-map, time / math/rand / os.Getenv call and pointer-to-integer conversion in the repository's packages, from the SSA of the current tree",
 		contractRune,
@@ -471,6 +471,12 @@ func propC05(c *Ctx) int {
 		j := base
 		j.Quiet = false
 		j.Name, j.Fn, j.MustReach = "tags model", "HTagsModel", []string{"closed", "undeclared"}
+		c.RunJob(j)
+	}
+	{
+		j := base
+		j.Quiet = false
+		j.Name, j.Fn, j.MustReach = "path variables model", "HPathVarsModel", []string{"closed"}
 		c.RunJob(j)
 	}
 	// closure invariants on every accepted document of the hole family
@@ -505,8 +511,8 @@ func propC05(c *Ctx) int {
 		c.RunJob(j)
 	}
 	return c.Finish("model_checking", []string{
-		"closure invariants (harness/core/zz_verif_c05.go vCheckClosure) asserted on the catalog structs of every ACCEPTED document: interaction key == id == '<protocol> <method> <path>'; every tag named by an interaction exists and lists it exactly once under its protocol, and vice versa; pathVariables present exactly when the path has {parameters}; response codes 1xx-5xx with a body; JSIGHT version 0.3",
-		"document families: TAG/Tags model with symbolic tag choices (incl. the same tag twice and an undeclared tag, URL-level and method-level Tags, HTTP and JSON-RPC); representative documents with a 2-byte symbolic substitution hole (sampled cuts in the quick tier); INCLUDE-split and MACRO/PASTE rewrites of the skeletons",
+		"closure invariants (harness/core/zz_verif_c05.go vCheckClosure) asserted on the catalog structs of every ACCEPTED document: interaction key == id == '<protocol> <method> <path>'; every tag named by an interaction exists and lists it exactly once under its protocol, and vice versa; pathVariables present exactly when the path has {parameters}, and its schema has exactly those parameters as properties; response codes 1xx-5xx with a body; JSIGHT version 0.3",
+		"document families: path-variable model (Path directives on URL level, method level, on a longer path sharing the prefix, in both orders — all symbolic); TAG/Tags model with symbolic tag choices (up to three names incl. the same tag twice, adjacent or not, and an undeclared tag, URL-level and method-level Tags, HTTP and JSON-RPC); representative documents with a 2-byte symbolic substitution hole (sampled cuts in the quick tier); INCLUDE-split and MACRO/PASTE rewrites of the skeletons",
 		"outside: usedUserTypes/usedUserEnums (computed by jsight-schema-core, visible only in the JSON), the JSON rendering itself (encoding/json), names of the pathVariables schema properties",
 		contractLoc, contractRune,
 	}, map[string]interface{}{})
@@ -530,7 +536,7 @@ func propC03(c *Ctx) int {
 		c.RunJob(j)
 	}
 	return c.Finish("model_checking", []string{
-		"fault catalogue (harness/core/zz_verif_c03.go, 28 classes: duplicate interaction/type/enum/server/tag/macro/OperationId, similar and duplicated path parameters, second Title/Version/Description/Query/Request body/Headers/BaseUrl/Protocol, undefined type/tag/macro, missing required parameter, forbidden annotation, JSIGHT repeated, Type+SchemaNotation, Method without Protocol) injected into a valid document; fault class and placement (root file / INCLUDEd file / pasted MACRO body) are symbolic; oracle: rejected, message of that class, located in the file and on the line of the offending directive (real jerr.NewLocation, no contract stub)",
+		"fault catalogue (harness/core/zz_verif_c03.go, 30 classes: duplicate interaction/type/enum/server/tag/macro/OperationId, similar and duplicated path parameters, second Title/Version/Description/Query/Request body/Headers/BaseUrl/Protocol, undefined type/tag/macro, missing required parameter, forbidden annotation, JSIGHT repeated, Type+SchemaNotation, Method without Protocol, request/response with Headers but without a body) injected into a valid document; fault class and placement (root file / INCLUDEd file / pasted MACRO body) are symbolic; oracle: rejected, message of that class, located in the file and on the line of the offending directive (real jerr.NewLocation, no contract stub)",
 		"symbolic names: a TYPE/ENUM/SERVER/TAG/MACRO/OperationId/method path with a symbolic two-byte name is appended: rejected as duplicate on that directive exactly when the name equals the existing name of its kind (the solver finds the equal-name case), accepted otherwise",
 		"outside: faults crossed with layouts (C08), rule/example mismatches inside schemas (jsight-schema-core)",
 		"JSIGHT missing, not first, without version, with a wrong (symbolic) version: rejected on line 1",
@@ -558,19 +564,33 @@ func propC02(c *Ctx) int {
 		jr := c.RunJob(j)
 		reached += jr.Stats.Reached["model-roundtrip"]
 	}
+	// feature groups: semantically related features symbolic together (two seeded settings of the rest each)
+	for g := int64(1); g <= 6; g++ {
+		reps := 1
+		if thorough {
+			reps = 6
+		}
+		for r := 0; r < reps; r++ {
+			j := base
+			fixed := rng.Int63n(1 << 55)
+			j.Name, j.Params = fmt.Sprintf("model n=2 group=%d fixed=%x", g, fixed), map[string]int64{"n": 2, "mask": 0, "fixed": fixed, "group": g}
+			jr := c.RunJob(j)
+			reached += jr.Stats.Reached["model-roundtrip"]
+		}
+	}
 	for i := 0; i < jobs1; i++ {
-		mk(1, 26, bits1)
+		mk(1, 32, bits1)
 	}
 	for i := 0; i < jobs2; i++ {
-		mk(2, 46, bits2)
+		mk(2, 54, bits2)
 	}
 	if reached == 0 {
 		c.Results[0].Inconclusive = append(c.Results[0].Inconclusive, "vacuity: no model round-trip was reached")
 	}
 	c.Log("model round-trips reached: %d", reached)
 	return c.Finish("model_checking", []string{
-		"abstract model (harness/core/zz_verif_c02.go): INFO (title, version, description), SERVER, TAG, TYPE, ENUM, 1..2 HTTP interactions (method x path pools, annotation, description, query, request none/any/schema/headers+body, OperationId, Tags or path tag, 1..2 responses in either order with any/@type/inline schema bodies, response headers and annotations), rendered with URL grouping or stand-alone methods, explicit ( ) or implicit contexts, // or /* */ annotations",
-		fmt.Sprintf("each job makes %d (1 interaction) / %d (2 interactions) of the ~26/46 feature choices symbolic (seeded selection, the solver explores all their combinations) and fixes the rest (seeded); %d+%d jobs this run; the expected catalog digest is computed from the model alone and compared entry by entry (nothing missing, nothing invented, order, attachment to the right interaction/response), followed by the C05 closure invariants", bits1, bits2, jobs1, jobs2),
+		"abstract model (harness/core/zz_verif_c02.go): INFO (title, version, description), up to two SERVERs, TAGs, TYPEs (jsight and regex), ENUMs, 1..2 HTTP interactions (all five methods x path pool, own Tags / URL-level Tags / path tag, annotation, description, query, request none/any/schema/headers+body, OperationId, Tags or path tag, 1..2 responses in either order with any/@type/inline schema bodies, response headers and annotations), rendered with URL grouping or stand-alone methods, explicit ( ) or implicit contexts, // or /* */ annotations",
+		fmt.Sprintf("6 feature groups (tags: declared tags x own/URL-level Tags x grouping x paths; entities; responses; request/description; grouping/explicit contexts; second interaction) are made symbolic together with seeded settings of the rest; in addition each mask job makes %d (1 interaction) / %d (2 interactions) of the ~32/54 feature choices symbolic (seeded selection, the solver explores all their combinations) and fixes the rest (seeded); %d+%d jobs this run; the expected catalog digest is computed from the model alone and compared entry by entry (nothing missing, nothing invented, order, attachment to the right interaction/response), followed by the C05 closure invariants", bits1, bits2, jobs1, jobs2),
 		"outside: JSON emission (encoding/json), JSON-RPC models, more than two interactions, combinations of more feature choices than the symbolic ones of a job, MACRO/PASTE and INCLUDE renderings (covered relationally by C10/C09), layout variants (C08)",
 		contractLoc, contractRune,
 	}, map[string]interface{}{"model_roundtrips": reached})
